@@ -590,6 +590,47 @@ fn check_offsets(c: &AnyTx, obs: &mut Obs) -> Check {
                 ensure_eq!(v1, v0, format!("cached:{name}:{kind}"), "{n0}: cached (left) vs uncached (right)");
             }
             ensure!(cached.to_bytes() == b, "cached:bytes", "precompute changed the encoding");
+            // a later precompute refreshes every cached offset: change the layout (script grows by
+            // a non-multiple of 8 / an input is removed / a witness is inserted in front), precompute
+            // again and compare with a freshly built, never-cached transaction
+            let mut changed = cached.clone();
+            let mut did = false;
+            {
+                use fuel_tx::field::{Inputs, Script as ScriptField, Witnesses};
+                fn shift<T: Inputs + Witnesses>(t: &mut T) -> bool {
+                    if !t.inputs().is_empty() {
+                        t.inputs_mut().remove(0);
+                    } else {
+                        t.witnesses_mut().insert(0, fuel_tx::Witness::from(vec![1u8, 2, 3]));
+                    }
+                    true
+                }
+                match &mut changed {
+                    Transaction::Script(t) => {
+                        t.script_mut().extend_from_slice(&[0x47, 0, 0, 0, 0x47, 0, 0, 0, 0x47, 0, 0, 0, 1]);
+                        did = true;
+                    }
+                    Transaction::Create(t) => did = shift(t),
+                    Transaction::Upgrade(t) => did = shift(t),
+                    Transaction::Upload(t) => did = shift(t),
+                    Transaction::Blob(t) => did = shift(t),
+                    Transaction::Mint(_) => {}
+                }
+            }
+            if did {
+                // a fresh copy without any cache: decode from bytes
+                let fresh = Transaction::from_bytes(&changed.to_bytes()).map_err(|e| Failure::new("harness-refresh-decode", format!("{e:?}")))?;
+                let want = report(&fresh);
+                if changed.precompute(&chain).is_ok() {
+                    obs.class("re-precompute-after-layout-change");
+                    let got = report(&changed);
+                    ensure_eq!(want.len(), got.len(), "cached:refresh:report-shape", "number of reported offsets");
+                    for ((n0, v0), (_, v1)) in want.iter().zip(&got) {
+                        let name = n0.split('(').next().unwrap_or(n0);
+                        ensure_eq!(v1, v0, format!("cached:stale-after-change-and-precompute:{name}:{kind}"), "{n0}: cached after re-precompute (left) vs uncached (right)");
+                    }
+                }
+            }
         }
         Err(e) => {
             obs.class("precompute-err");
